@@ -2139,9 +2139,14 @@ class Node(SimComponent, ABC):
     def power_off(self) -> bool:
         """Power off the Node, disabling its NICs if it is in the ON state."""
         if self.config.shut_down_duration <= 0:
+            for network_interface in self.network_interfaces.values():
+                network_interface.disable()
             self._shut_down_actions()
             self.operating_state = NodeOperatingState.OFF
             self.sys_log.info("Power off")
+            if self.config.is_resetting:
+                self.config.is_resetting = False
+                self.power_on()
             return True
         if self.operating_state == NodeOperatingState.ON:
             for network_interface in self.network_interfaces.values():
